@@ -187,9 +187,15 @@ SimFamilies ==
 ReproveFamilies ==
   \E a \in (IF Kind = "seq" THEN {1, 2} ELSE {1}) : Give(Adv("reprove", a, 0), out, prf, par)
 
+\* the public parameters of the HONEST case: the whole run (keys, inputs, shuffle, proof, verification) is made over
+\* another generator G - a = 2: a known multiple of the standard base, a = 3: a picked point - with the public key
+\* H = h*G over that generator (the other families use the standard base). Verdict: accept.
+GeneratorFamilies ==
+  \E a \in {2, 3} : Give(Adv("gen", a, 0), out, prf, par)
+
 \* simple shuffle: the prover itself lies about y (there is no separate output: X, Y travel inside the proof)
 Adversary == phase = "adv" /\ (OutputFamilies \/ SeqFamilies \/ ProofFamilies \/ TamperFamilies
-                               \/ EquationFamilies \/ SimFamilies \/ ReproveFamilies)
+                               \/ EquationFamilies \/ SimFamilies \/ ReproveFamilies \/ GeneratorFamilies)
 
 Verify ==
   /\ phase = "verify"
@@ -207,9 +213,9 @@ Total == Judged => Must \in {"acc", "rej", "free"} /\ Impl \in {"acc", "rej"}
 \* accept only what the property allows: a permutation of re-encryptions, proof and parameters untouched
 AcceptImpliesPerm == Judged /\ Impl = "acc" => IsPermAll(out) /\ ~ProofAltered /\ ~ParAltered
 Refines == Judged => (Must = "acc" => Impl = "acc") /\ (Must = "rej" => Impl = "rej")
-HonestAccepted == Judged /\ adv.f \in {"none", "honestlib", "reprove"} => Must = "acc"
+HonestAccepted == Judged /\ adv.f \in {"none", "honestlib", "reprove", "gen"} => Must = "acc"
 \* no adversary family degenerates into the honest case (vacuity guard)
-FamiliesBite == Judged /\ adv.f \notin {"none", "honestlib", "reprove"} => Must # "acc"
+FamiliesBite == Judged /\ adv.f \notin {"none", "honestlib", "reprove", "gen"} => Must # "acc"
 \* the classification the families were designed for
 Designed == Judged =>
   /\ (adv.f \in {"replaceX", "replaceY", "comptamper", "replace", "dup", "sum", "scal", "swapX", "kshift", "seqperm", "detach"} => ~IsPermAll(out))
